@@ -712,3 +712,15 @@ impl Engine for C01 {
         }
     }
 }
+
+pub fn values_for(class: &str, n: usize) -> Vec<RVal> {
+    column_values(class, n)
+}
+
+pub fn present_for(pat: NullPat, n: usize) -> Option<Vec<u8>> {
+    present_map(pat, n)
+}
+
+pub fn push_alphabet_pub(tier: Tier) -> Vec<Push> {
+    push_alphabet(tier)
+}
